@@ -25,6 +25,7 @@ from ..spec import mk_spec
 from ..spy import run_once_serial
 
 LT_DIR = os.path.dirname(os.path.abspath(labtech.__file__)) + os.sep
+THR_CAP = 60000     # executions per (harness, interrupt position) of the threaded slice
 
 
 def want(code):
@@ -95,7 +96,8 @@ class Interrupts:
             if hasattr(self.backend, 'events'):
                 self.backend.events.append(('interrupt', n))
             return KeyboardInterrupt()
-        self.inj = LineInjector(want, at=self.k1, second_at=self.k2, exc_factory=fire, gate=gate)
+        self.inj = LineInjector(want, at=self.k1, second_at=self.k2, exc_factory=fire, gate=gate,
+                                sched=getattr(w, 'sched', None), switch_files=(os.path.join('runners', 'process.py'),))
         if self.k1 is None:
             self.inj.record_sites = True
         return self.inj
@@ -213,11 +215,16 @@ def run_case(args):
         obs = run_once_serial(cfg, around_run=intr, displays=(kind != 'serial'))
         handle(obs, intr, [])
     else:
+        thr = kind.endswith('+thr')
+
         def run(ch):
             intr = Interrupts(k1, k2)
-            obs = e3.run_once_e3(cfg, ch, around_run=intr)
+            obs = e3.run_once_e3(cfg, ch, around_run=intr, threaded=thr)
             return obs, intr
-        explore(run, lambda ch, r: handle(r[0], r[1], ch.choices), max_deviations=max_dev, max_executions=400)
+        st = explore(run, lambda ch, r: handle(r[0], r[1], ch.choices), max_deviations=max_dev,
+                     max_executions=(THR_CAP if thr else 400))
+        if thr:
+            return n, fired_n, res, {'capped': bool(st.capped), 'states': len(st.states), 'transitions': len(st.transitions)}
     return n, fired_n, res
 
 
@@ -230,6 +237,13 @@ def count_events(kind, cfg, max_dev):
         run_once_serial(cfg, around_run=intr, displays=(kind != 'serial'))
         return intr.inj.count, intr.inj.sites
 
+    if kind.endswith('+thr'):
+        # threaded slice: default schedule; the interesting positions are the main-thread events
+        # at which a helper thread is alive (= the consumer_thread.join() lines)
+        intr = Interrupts(None)
+        e3.run_once_e3(cfg, Chooser([]), around_run=intr, threaded=True)
+        return intr.inj.count, intr.inj.sites, list(intr.inj.helper_live_at)
+
     def run(ch):
         intr = Interrupts(None)
         e3.run_once_e3(cfg, ch, around_run=intr)
@@ -241,6 +255,15 @@ def count_events(kind, cfg, max_dev):
             best = (intr.inj.count, intr.inj.sites)
     explore(run, on, max_deviations=max_dev, max_executions=400)
     return best
+
+
+def live_after(args):
+    """threaded slice: main-thread events after a first interrupt at k1 at which a helper thread is alive"""
+    kind, cfg, k1 = args
+    silence_labtech()
+    intr = Interrupts(k1)
+    e3.run_once_e3(cfg, Chooser([]), around_run=intr, threaded=True)
+    return args, [k for k in intr.inj.helper_live_at if k > k1], intr.inj.count
 
 
 def _count(a):
@@ -265,26 +288,56 @@ def harnesses(tier):
                                     liveness_choice=False), dev))
         out.append((be, e3.E3Config(base=e2.Config(spec=chain, requested=req3, precached=(0, 1, 2), bust_cache=True), backend=be, max_workers=2,
                                     liveness_choice=False), dev))
+    # threaded slice: the result-consumer helper thread is a real thread under a baton scheduler, so an
+    # interrupt that lands on consumer_thread.join() leaves a *stale* consumer that keeps running
+    # concurrently with the rest of the shutdown; worker liveness is a choice here (a result can sit in
+    # the queue while its worker is already seen dead)
+    tdev = 2 if tier == 'quick' else 3
+    two = mk_spec(((), ()), types=('TA', 'TA'))
+    out.append(('fork+thr', e3.E3Config(base=e2.Config(spec=two, requested=((0, False), (1, False))), backend='fork', max_workers=2), tdev))
+    if tier != 'quick':
+        out.append(('fork+thr', e3.E3Config(base=e2.Config(spec=chain, requested=req3), backend='fork', max_workers=2), tdev))
+        out.append(('spawn+thr', e3.E3Config(base=e2.Config(spec=two, requested=((0, False), (1, False))), backend='spawn', max_workers=1), tdev))
     return out
 
 
 def run(tier: str, seed: int) -> Result:
     silence_labtech()
     hs = harnesses(tier)
+    only = os.environ.get('VERIF_C14_ONLY')      # debugging aid: restrict to harness kinds containing this text
+    if only:
+        hs = [h for h in hs if only in h[0]]
     counts = dict()
     for a, c in pmap(_count, [(k, cfg, d) for k, cfg, d in hs]):
         counts[(a[0], repr(a[1]))] = c
     work = []
     reps_total = 0
+    thr_first = []
+    thr_positions = {}
     for kind, cfg, dev in hs:
-        K, sites = counts[(kind, repr(cfg))]
-        for k in range(1, K + 1):
-            work.append((kind, cfg, k, None, dev))
-        # doubles: first point = one representative per distinct source line, second = every later point
+        c = counts[(kind, repr(cfg))]
+        K, sites = c[0], c[1]
+        thr = kind.endswith('+thr')
         seen_sites = {}
         for idx, s in enumerate(sites, start=1):
             seen_sites.setdefault((s[0], s[1]), idx)
         reps = sorted(seen_sites.values())
+        if thr:
+            # singles: only positions at which a helper thread is alive differ from the synchronous slice
+            J = c[2]
+            thr_positions[f'{kind}:{cfg.brief()}'] = list(J)
+            for k in J:
+                work.append((kind, cfg, k, None, dev))
+                # doubles with a stale consumer from the first interrupt: second at every later event
+                for k2 in range(k + 1, min(K + 400, k + (60 if tier == 'quick' else 250)) + 1):
+                    work.append((kind, cfg, k, k2, 1 if tier == 'quick' else 2))
+            # doubles whose *second* interrupt lands on a join: first at a representative line
+            rr = reps[:: max(1, len(reps) // (12 if tier == 'quick' else 60))]
+            thr_first.extend((kind, cfg, k1) for k1 in rr if k1 not in J)
+            continue
+        for k in range(1, K + 1):
+            work.append((kind, cfg, k, None, dev))
+        # doubles: first point = one representative per distinct source line, second = every later point
         reps_total += len(reps)
         if tier == 'quick':
             reps = reps[:: max(1, len(reps) // 40)]
@@ -292,17 +345,28 @@ def run(tier: str, seed: int) -> Result:
             horizon = K + 400
             for k2 in range(k1 + 1, min(horizon, k1 + (120 if tier == 'quick' else 400)) + 1):
                 work.append((kind, cfg, k1, k2, 0))
+    for (kind, cfg, k1), later, _ in pmap(live_after, thr_first):
+        for k2 in later:
+            work.append((kind, cfg, k1, k2, 1 if tier == 'quick' else 2))
     work = rotate(work, seed)
     viols = []
     n_exec = n_fired = 0
-    for n, f, res in pmap(run_case, work, chunksize=16):
+    thr_exec = thr_cases = thr_capped = thr_states = thr_trans = 0
+    for r in pmap(run_case, work, chunksize=4):
+        n, f, res = r[0], r[1], r[2]
         n_exec += n
         n_fired += f
+        if len(r) > 3:
+            thr_exec += n
+            thr_cases += 1
+            thr_capped += 1 if r[3]['capped'] else 0
+            thr_states += r[3]['states']
+            thr_trans += r[3]['transitions']
         for key, msg, rp in res:
             viols.append(Violation('C14', key, msg, rp, size=(rp['k1'] or 0) + (1000 if rp['k2'] else 0)))
     # real SIGINT to the whole process group of real fork / spawn runs at a controlled rest point
     from .. import e4b
-    scs = e4b.sigint_cases(tier)
+    scs = e4b.sigint_cases(tier) if not only else []
     n_real = 0
     for r in pmap(e4b.sigint_case, scs):
         n_real += 1
@@ -315,16 +379,23 @@ def run(tier: str, seed: int) -> Result:
         'rule': ('harnesses: 3-task DAGs (chain + independent; join with one node pre-cached) on the real SerialRunner and on the real fork/spawn ProcessRunner (max_workers 1,2) over the '
                  'virtual OS; single interrupt at every labtech line event k of the calling thread x every schedule within the deviation bound; double interrupts: first at one '
                  'representative event per distinct source line (quick: every ~n/40th), second at each of the following 120 (quick) / 400 events; distinct_nontrivial = executions in which the '
-                 'interrupt(s) actually fired; plus real SIGINT (single and double) sent to the process group of real fork/spawn runs while workers are blocked inside run()'),
-        'samples': [{'harness': [k, cfg.brief()], 'line_events': counts[(k, repr(cfg))][0]} for k, cfg, d in hs[:4]],
+                 'interrupt(s) actually fired; threaded slice: the result-consumer helper runs as a real thread under a baton scheduler (switch points: every labtech line of a helper thread, '
+                 'every runners/process.py line of the calling thread while a helper is alive, join), interrupts at every position where a helper is alive (first or second interrupt), all '
+                 'thread/OS schedules within the deviation bound; plus real SIGINT (single and double) sent to the process group of real fork/spawn runs while workers are blocked inside run()'),
+        'samples': [{'harness': [k, cfg.brief()], 'line_events': counts[(k, repr(cfg))][0]} for k, cfg, d in hs[:4]]
+                   + [{'threaded_harness': k, 'interrupt_positions_with_live_helper': v} for k, v in list(thr_positions.items())[:2]],
         'line_events_per_harness': {f'{k}:{i}': counts[(k, repr(cfg))][0] for i, (k, cfg, d) in enumerate(hs)},
         'distinct_source_lines_as_first_interrupt': reps_total,
-        'exhaustive': tier != 'quick',
+        'threaded_slice': {'interrupt_cases': thr_cases, 'executions': thr_exec, 'cases_capped_at_%d_executions' % THR_CAP: thr_capped,
+                           'states': thr_states, 'transitions': thr_trans,
+                           'deviation_bound': {k + ':' + str(i): d for i, (k, cfg, d) in enumerate(hs) if k.endswith('+thr')}},
+        'exhaustive': tier != 'quick' and thr_capped == 0,
     }
     return Result('C14', 'fault_enumeration', cov, assumptions=[
         'interrupts at line, not bytecode, granularity, only in labtech frames of the calling thread, never inside (virtual) workers or the result-consumer helper thread',
         'a worker that has not set SIGINT to ignored when the interrupt is delivered receives it too (process group)',
         'after a second interrupt executing workers make no further progress unless terminated',
+        'threaded slice: thread switches at line granularity; a blocking queue get with a timeout may time out at any moment (untimed model)',
     ], violations=viols)
 
 
@@ -344,7 +415,7 @@ def replay(payload) -> int:
     if kind.startswith('serial'):
         obs = run_once_serial(cfg, around_run=intr, displays=(kind != 'serial'))
     else:
-        obs = e3.run_once_e3(cfg, Chooser(payload['choices']), around_run=intr)
+        obs = e3.run_once_e3(cfg, Chooser(payload['choices']), around_run=intr, threaded=kind.endswith('+thr'))
         for ev in obs.vworld.events:
             print('  os:', ev)
     for ev in obs.events:
